@@ -37,6 +37,10 @@ type fileSpec struct {
 	Map    []entrySpec `json:"map"`
 	Notdef []entrySpec `json:"notdef,omitempty"`
 	Odd    bool        `json:"odd,omitempty"` // a file of the odd-range family (odd.go): judged for agreement only
+	// extra lookup probes (hex), in addition to the probes around the corners
+	// of all entries: the notdef-range-size family (sizes.go) probes the codes at
+	// the positions around every power of two inside its notdef range
+	Probe []string `json:"probe,omitempty"`
 
 	mr []rng // Map[i].rng(), filled by prep
 }
@@ -136,7 +140,99 @@ func (spec *fileSpec) interest() (covered []string, probes []string) {
 			probes = append(probes, c)
 		}
 	}
-	return covered, probes
+	for _, h := range spec.Probe {
+		if c := unhx(h); !set[c] {
+			probes = append(probes, c)
+		}
+	}
+	// one probe once; and none where the notdef entries have no agreed meaning
+	sort.Strings(probes)
+	out := probes[:0]
+	for i, c := range probes {
+		if (i > 0 && c == probes[i-1]) || spec.notdefAmbiguous(c) {
+			continue
+		}
+		out = append(out, c)
+	}
+	return covered, out
+}
+
+// notdefAmbiguous reports whether c lies between the end points of a notdef
+// range as a number but not byte by byte: readers disagree on whether such a
+// code belongs to the range (see odd.go), so nothing is demanded of it.
+func (spec *fileSpec) notdefAmbiguous(c string) bool {
+	for _, e := range spec.Notdef {
+		if e.Last == "" {
+			continue
+		}
+		r := e.rng()
+		if len(c) == len(r.lo) && r.lo <= c && c <= r.hi && !r.has(c) {
+			return true
+		}
+	}
+	return false
+}
+
+// notdefClass describes, for the fingerprint, where in a notdef range c lies:
+// the position of c in the range (last byte fastest) by magnitude.
+func (spec *fileSpec) notdefClass(c string) string {
+	for _, e := range spec.Notdef {
+		if e.Last == "" && unhx(e.First) == c {
+			return "/notdef-single"
+		}
+	}
+	for _, e := range spec.Notdef {
+		if e.Last == "" || !e.rng().has(c) {
+			continue
+		}
+		r := e.rng()
+		var pos uint64
+		for i := 0; i < len(c); i++ {
+			pos = pos*(uint64(r.hi[i])-uint64(r.lo[i])+1) + uint64(c[i]-r.lo[i])
+		}
+		switch {
+		case pos >= 1<<31:
+			return "/notdef-range/position>=2^31"
+		case pos >= 1<<24:
+			return "/notdef-range/position>=2^24"
+		case pos >= 1<<16:
+			return "/notdef-range/position>=2^16"
+		case pos >= 1<<8:
+			return "/notdef-range/position>=2^8"
+		}
+		return "/notdef-range/position<2^8"
+	}
+	return "/no-notdef-entry"
+}
+
+// entryKinds names every entry of the map for the fingerprints; in a code
+// space with holes an entry whose rectangle contains a byte string that is no
+// code of the space is marked.
+func (spec *fileSpec) entryKinds(sp *space, list bool) []string {
+	out := make([]string, len(spec.Map))
+	for i, e := range spec.Map {
+		kind := "single"
+		if e.Last != "" {
+			r := e.rng()
+			kind = "one-row-range"
+			if !r.oneRow() {
+				kind = "multi-row-range"
+			}
+			if list && len(e.Text) > 1 {
+				kind += "-list"
+			}
+			if sp.holes {
+				for _, c := range r.expand() {
+					if !inSpace(sp.rngs, c) {
+						kind += "/crosses-hole"
+						break
+					}
+				}
+			}
+		}
+		out[i] = kind
+	}
+	return out
 }
 
 // cover returns the entries of the map that contain c.
@@ -180,20 +276,21 @@ func judgeCIDFile(stage string, sp *space, spec *fileSpec, covered, probes []str
 		o.v = p.val
 		seen[p.code] = o
 	}
+	kinds := spec.entryKinds(sp, false)
 	for _, c := range covered {
+		if !inSpace(sp.rngs, c) {
+			// the rectangle of an entry crosses a hole of the code space: the
+			// byte string is no code, All cannot yield it and the statement
+			// says nothing about looking it up
+			continue
+		}
 		cov := spec.cover(c)
 		if len(cov) != 1 {
 			continue // overlapping entries: no demand
 		}
 		e := spec.Map[cov[0]]
 		r := e.rng()
-		kind := "single"
-		if e.Last != "" {
-			kind = "one-row-range"
-			if !r.oneRow() {
-				kind = "multi-row-range"
-			}
-		}
+		kind := kinds[cov[0]]
 		o := seen[c]
 		if o.n != 1 {
 			return failf(tag+"/all-count/"+kind, "<%s> lies in exactly one entry but All yields it %d times", hx(c), o.n)
@@ -202,7 +299,7 @@ func judgeCIDFile(stage string, sp *space, spec *fileSpec, covered, probes []str
 		if got != o.v {
 			return failf(tag+"/all-vs-lookup/"+kind, "<%s>: All yields %d, LookupCID gives %d", hx(c), o.v, got)
 		}
-		if kind != "multi-row-range" {
+		if e.Last == "" || r.oneRow() {
 			off := uint64(c[len(c)-1] - r.lo[len(c)-1])
 			if want := uint64(e.CID) + off; want <= 0xFFFFFFFF && uint64(got) != want {
 				return failf(tag+"/value/"+kind, "<%s>: LookupCID gives %d, entry says %d", hx(c), got, want)
@@ -217,7 +314,14 @@ func judgeCIDFile(stage string, sp *space, spec *fileSpec, covered, probes []str
 			return failf(tag+"/all-extra", "<%s> lies in no entry but All yields it", hx(c))
 		}
 		if got, want := uint32(f.LookupCID([]byte(c))), spec.notdef(c); got != want {
-			return failf(tag+"/lookup-notdef", "LookupCID(<%s>) = %d for a code in no entry, notdef entries say %d", hx(c), got, want)
+			cl := ""
+			if len(spec.Probe) > 0 {
+				cl = spec.notdefClass(c)
+			}
+			return failf(tag+"/lookup-notdef"+cl, "LookupCID(<%s>) = %d for a code in no entry, notdef entries say %d", hx(c), got, want)
+		}
+		if got, want := uint32(f.LookupNotdefCID([]byte(c))), spec.notdef(c); got != want {
+			return failf(tag+"/lookupnotdefcid"+spec.notdefClass(c), "LookupNotdefCID(<%s>) = %d, notdef entries say %d", hx(c), got, want)
 		}
 	}
 	for _, c := range sortedKeys(seen) {
@@ -259,23 +363,18 @@ func judgeTUFile(stage string, sp *space, spec *fileSpec, covered, probes []stri
 		o.v = p.val
 		seen[p.code] = o
 	}
+	kinds := spec.entryKinds(sp, true)
 	for _, c := range covered {
+		if !inSpace(sp.rngs, c) {
+			continue // no code of the space (see judgeCIDFile)
+		}
 		cov := spec.cover(c)
 		if len(cov) != 1 {
 			continue
 		}
 		e := spec.Map[cov[0]]
 		r := e.rng()
-		kind := "single"
-		if e.Last != "" {
-			kind = "one-row-range"
-			if !r.oneRow() {
-				kind = "multi-row-range"
-			}
-			if len(e.Text) > 1 {
-				kind += "-list"
-			}
-		}
+		kind := kinds[cov[0]]
 		o := seen[c]
 		if o.n != 1 {
 			return failf(tag+"/all-count/"+kind, "<%s> lies in exactly one entry but All yields it %d times", hx(c), o.n)
